@@ -73,6 +73,7 @@ def kernel_catalogue(v, seed):
         "arc": lambda: K.ScaleKernel(K.ArcKernel(K.MaternKernel(nu=2.5), ard_num_dims=d)),
         "cyl": lambda: K.CylindricalKernel(3, K.RBFKernel()),
         "constant_rbf": lambda: K.ConstantKernel(constant_constraint=Interval(lo, hi)) + K.RBFKernel(),
+        "kiss_auto": lambda: K.ScaleKernel(K.GridInterpolationKernel(K.RBFKernel(lengthscale_constraint=Interval(lo, hi)), grid_size=8, num_dims=d)),
         "rbf_prior_by_name": lambda: _prior_by_name(K.RBFKernel(lengthscale_constraint=Interval(lo, hi)), P.GammaPrior(pa, 3.0)),
     }
 
@@ -105,6 +106,10 @@ class Var(gpytorch.models.ApproximateGP):
         vd = dist_cls(M, mean_init_std=1e-3 * (1 + v))
         if strat_name == "vs":
             strat = V.VariationalStrategy(self, Z, vd, learn_inducing_locations=True, jitter_val=None)
+        elif strat_name == "vs_fixedz":   # fixed inducing locations are state as well (a buffer, different in the model the state is loaded into)
+            strat = V.VariationalStrategy(self, Z, vd, learn_inducing_locations=False)
+        elif strat_name == "uvs_fixedz":
+            strat = V.UnwhitenedVariationalStrategy(self, Z, vd, learn_inducing_locations=False)
         elif strat_name == "uvs":
             strat = V.UnwhitenedVariationalStrategy(self, Z, vd, learn_inducing_locations=True)
         elif strat_name == "bdvs":
@@ -134,7 +139,7 @@ EXACT_SPECS = [(k, "gaussian") for k in kernel_catalogue(0, 0)] + [("rbf_interva
                                                                    ("mt", "multitask"), ("sgpr", "gaussian"), ("gridk", "gaussian"),
                                                                    ("rbf_interval_gamma", "gaussian_noiseprior"), ("lcm", "multitask")]
 VAR_SPECS = [("vs", "chol"), ("vs", "mf"), ("vs", "delta"), ("vs", "nat"), ("vs", "trilnat"), ("uvs", "chol"), ("bdvs", "chol"), ("bdvs", "mf"),
-             ("grid", "chol"), ("orth", "delta"), ("ciq", "nat")]
+             ("grid", "chol"), ("orth", "delta"), ("ciq", "nat"), ("vs_fixedz", "chol"), ("uvs_fixedz", "chol")]
 
 
 def make(spec, v, seed):
@@ -200,6 +205,29 @@ def perturb(model, seed):
 
 
 HOPS = ["predict", "predict_fpv", "predict_grad", "train", "eval", "step"]
+
+
+def _plain(v):
+    if isinstance(v, (bool, int, float, str, type(None))):
+        return True
+    return isinstance(v, (tuple, list)) and all(_plain(x) for x in v)
+
+
+def plain_attribute_diff(a, b):
+    """{'<module path>.<attr>': (original, restored)} over public plain-valued instance attributes of all sub-modules (mode flag excluded)"""
+    out = {}
+    mb = dict(b.named_modules())
+    for name, ma in a.named_modules():
+        m2 = mb.get(name)
+        if m2 is None:
+            continue
+        for k, v in vars(ma).items():
+            if k.startswith("_") or k == "training" or not _plain(v):
+                continue
+            w = vars(m2).get(k, "<missing>")
+            if _plain(w) and (list(v) if isinstance(v, (tuple, list)) else v) != (list(w) if isinstance(w, (tuple, list)) else w):
+                out[(name + "." if name else "") + k] = (v, w)
+    return out
 
 
 def observables(model, spec, X, y, Xs):
@@ -313,6 +341,14 @@ def run_cell(cell, seed):
     feats = {"kind": spec[0], "entry": spec[1], "lik": spec[2], "hist": "-".join(hist) or "init", "hlen": len(hist)}
     try:
         model, X, y, Xs = make(spec, 0, seed)
+        if spec[1] == "kiss_auto":
+            # test inputs inside the range of the training inputs: an automatically fitted grid is re-fitted when it sees points outside
+            # its range (a known finding of C09), which is not what this cell is about
+            lo_, hi_ = X.min(0)[0], X.max(0)[0]
+            Xs = lo_ + (hi_ - lo_) * (0.1 + 0.8 * Xs)
+            model.train()
+            with torch.no_grad():
+                model(X)  # the grid is fitted by the first call (to the training inputs, as in any training run); save points come after it
         if spec[0] == "var":
             model.eval()
             with torch.no_grad():
@@ -357,6 +393,11 @@ def run_cell(cell, seed):
             fails.append({"sub": "roundtrip", "symptom": util.exc_str(e), "detail": "", "features": f2})
             continue
         try:
+            # (taken right after the round trip, before anything is evaluated on the restored object)
+            attr_diff = plain_attribute_diff(model, restored)
+            # only state that EVOLVED since construction counts (constructor arguments of the receiving model may legitimately differ)
+            evolved = set(plain_attribute_diff(model, make(spec, 0, seed)[0]))
+            attr_diff = {k: v for k, v in attr_diff.items() if k in evolved}
             a = observables(model, spec, X, y, Xs)
             b = observables(restored, spec, X, y, Xs)
             ran += 1
@@ -370,6 +411,12 @@ def run_cell(cell, seed):
             ok, msg = util.close(b[k], a[k], 1e-12, 1e-12)
             if not ok:
                 fails.append({"sub": "restored-" + k.split("_")[0], "symptom": f"{k} of the restored model differs from the original: err={msg}", "detail": "", "features": f2})
+        # "no prediction-relevant state lives outside what these mechanisms carry": plain (non-tensor) public attributes of every sub-module
+        # that hold a number / flag / string / tuple of those must agree between the original and the restored model
+        diff = attr_diff
+        if diff:
+            fails.append({"sub": "restored-attributes", "symptom": "plain attributes differ after the round trip: " + ", ".join(sorted(diff)),
+                          "detail": "; ".join(f"{k}: {v}" for k, v in sorted(diff.items()))[:600], "features": f2})
         kept.append((f2, restored, b))
     # the restored objects are independent of the original: changing the ORIGINAL's parameters afterwards changes nothing in them
     try:
